@@ -261,6 +261,11 @@ func verifProduce(p verifProfile) *verifDoc {
 		switch op {
 		case 0: // Put
 			ref := w.Alloc()
+			if verifrt.Tier() > 0 && verifrt.Choice("chosengen", 2) == 1 {
+				// a reference of the caller's choosing: same number,
+				// generation 3
+				ref = NewReference(ref.Number(), 3)
+			}
 			var obj Object
 			if rich {
 				obj = verifPayload(p.symbolic)
